@@ -35,6 +35,12 @@ CHECKS = {
     "C18": ("differential monitor across dialects: the target dialect's own validator (jsonschema draft-07 / 2019-09; OpenAPI 3.0 through its documented mapping) vs the 2020-12 validator on the same data + foreign-keyword / reference-prefix walker over every sub-schema position",
             "Exploration: for generated programs and data, the schema produced with version=V must accept exactly what the 2020-12 schema accepts under V's rules, and contain only V's vocabulary and reference prefix at every nesting level (also inside definitions_schema for OpenAPI).",
             "Trusted: jsonschema validators per draft; keyword sets per dialect listed in vf/jsonschema_o.py; OpenAPI 3.0 semantics = nullable mapping + draft-07.", "DESIGN §5 C18"),
+    "C04": ("boundary monitor on serialize / serialization_method + executable reference model of the documented image (omission rule) + JSON-only walker + option-invariance probes (check_type, fall_back_on_any, typeless serialize)",
+            "Exploration: for generated programs (incl. serialized methods, skip(serialization_if/default), none_as_undefined, with_fields_set) and well-typed values, the real output must be JSON-only and equal to the model's image under every sampled exclude_* / aliaser / additional_properties combination; check_type=True, fall_back_on_any=True and serialize(v) without type must not change it.",
+            "Trusted: reference serialization model (vf/sermodel.py); abstains on class-ambiguous unions and on exclude_none for fields typed exactly None.", "DESIGN §5 C04"),
+    "C05": ("round-trip monitor: serialize then deserialize (directly and through json) compared by canonical typed image; dual direction checked as fixpoint + subsumption of the input",
+            "Exploration: on the bijective fragment (+ std converted types, discriminated unions) every value drawn from the image of deserialize must come back identical with the same runtime classes, also through json.dumps/loads and under aliasers; serialize(deserialize(d)) must contain d, re-deserialize to an equal value and be a fixpoint.",
+            "Trusted: canonical image function; the generator's decision of the bijective fragment (documented exclusions are counted in the evidence).", "DESIGN §5 C05"),
 }
 PLANNED = {
 }
